@@ -36,6 +36,8 @@ def run(ctx):
     malsec.multiply_impls(ctx, facts, "WHO-multiply")
     malsec.dzkp_validate_path(ctx, facts, "PATH-verdict")
     affine_ids(ctx, facts)
+    from rules import C02
+    C02.downgrade_users(ctx, facts)    # who may read a MAC-protected share without its check
     ctx.assume("detection probability (1/|F|) and algebraic soundness of the MAC scheme are not decided")
 
 
